@@ -21,6 +21,7 @@ import (
 
 	fxtypes "github.com/functionx/fx-core/v8/types"
 	"github.com/functionx/fx-core/v8/x/crosschain/precompile"
+	crosschainkeeper "github.com/functionx/fx-core/v8/x/crosschain/keeper"
 	crosschaintypes "github.com/functionx/fx-core/v8/x/crosschain/types"
 
 	"fxverif/lib"
@@ -418,6 +419,28 @@ func (h *hist) apply(o Op) (accepted bool, errStr string) {
 			return e
 		})
 		coqOps = append(coqOps, fmt.Sprintf("EditBridger %d %d", o.Oracle, o.Bridger))
+	case "export":
+		// lifecycle: genesis export (through JSON, as a restart from an exported genesis would) -> wipe the module's store
+		// -> InitGenesis of the exported state, on the running app
+		err, events = h.try(func(ctx sdk.Context) error {
+			cdc := h.c.App.AppCodec()
+			bz := cdc.MustMarshalJSON(crosschainkeeper.ExportGenesis(ctx, h.x.Keeper))
+			store := ctx.KVStore(h.c.App.GetKey(h.module))
+			var keys [][]byte
+			it := store.Iterator(nil, nil)
+			for ; it.Valid(); it.Next() {
+				keys = append(keys, append([]byte{}, it.Key()...))
+			}
+			it.Close()
+			for _, k := range keys {
+				store.Delete(k)
+			}
+			var st crosschaintypes.GenesisState
+			cdc.MustUnmarshalJSON(bz, &st)
+			crosschainkeeper.InitGenesis(ctx, h.x.Keeper, &st)
+			return nil
+		})
+		coqOps = append(coqOps, "ExportImport")
 	case "install":
 		// a callback contract for the bridge call of event nonce o.Nonce that re-enters executeClaim(chain, nonce)
 		// (no model operation: nothing the model covers changes)
